@@ -339,7 +339,7 @@ def Tpl.sem : Tpl → Query Db
         .eff (· ++ [x * 10 + y])
           (.ans ("{X=" ++ showInt x ++ ",Y=" ++ showInt y ++ ",Z=" ++ showInt (x * 10 + y) ++ "}"))))
   | .snap, db => .ans ("{L=" ++ showList db ++ "}")
-  | .clear, _ => .eff (fun _ => []) (.ans "true")
+  | .clear, _ => .eff (fun _ => []) (.ans "{}")      -- the `_` makes it a bindings answer, empty
   | .has n, db => .ans (if db.contains n then "{R='yes'}" else "{R='no'}")
   | .retrThrow n, db =>
       alts (db.map fun v => .eff (·.drop 1)
